@@ -3,7 +3,7 @@
    - fuel-free forms of ns_blocks / ns_loop,
    - level order = depth first: the loop nest equals the recursion NSrec over the block tree,
    - naturality with respect to an ntt_hom. *)
-From Coq Require Import ZArith Lia List Bool Arith PeanoNat ZifyNat FMapPositive.
+From Coq Require Import ZArith Lia List Bool Arith PeanoNat ZifyNat FMapPositive Ring_theory Field_theory.
 From TF Require Import FieldOps FieldTheory Dft Ntt NttLists NttStruct NttBitrev.
 Import ListNotations.
 Local Open Scope nat_scope.
@@ -136,7 +136,7 @@ Section NsStruct.
     assert (Ex : x = blk ++ r) by (subst blk r; symmetry; apply firstn_skipn).
     clear Eb Er Hx. subst x.
     cbn [seq map ns_blocksP]. replace (2 * S c) with (S (S (2 * c))) by lia. cbn [nsrec_all].
-    rewrite (firstn_exact blk r) by exact Lb. rewrite (skipn_exact blk r) by exact Lb.
+    rewrite (firstn_exact blk r (2 ^ S d) Lb), (skipn_exact blk r (2 ^ S d) Lb).
     rewrite Nat.pow_succ_r' in Lb.
     (* the block itself *)
     unfold ns_block1. cbn [NSrec].
@@ -162,16 +162,20 @@ Section NsStruct.
     apply IHc. exact Lr.
   Qed.
 
+  Lemma nsrec_all_0 : forall c i0 x, length x = c -> nsrec_all 0 i0 c x = x.
+  Proof.
+    induction c; intros i0 x Hx; [destruct x; [reflexivity|discriminate Hx]|].
+    cbn [nsrec_all NSrec Nat.pow]. destruct x as [|x0 x']; [discriminate Hx|]. cbn [firstn skipn app].
+    f_equal. apply IHc. cbn in Hx. lia.
+  Qed.
+
   (* the loop nest = the tree recursion, provided the table lists zf *)
   Lemma nsP_nsrec k : forall s powers x, length x = 2 ^ (s + k) ->
     (forall m, m <= 2 ^ (s + k - 1) -> firstn m powers = map zf (seq 0 m)) ->
     nsP k (2 ^ s) (2 ^ k) powers x = nsrec_all k 0 (2 ^ s) x.
   Proof.
     induction k; intros s powers x Hx Hp.
-    - cbn [nsP]. rewrite Nat.add_0_r in Hx. clear Hp. revert x Hx. generalize 0 at 2.
-      induction (2 ^ s) as [|c IH]; intros i0 x Hx; [destruct x; [reflexivity|discriminate Hx]|].
-      cbn [nsrec_all NSrec Nat.pow]. destruct x as [|x0 x']; [discriminate Hx|]. cbn [firstn skipn app].
-      f_equal. apply IH. cbn in Hx. lia.
+    - cbn [nsP]. rewrite Nat.add_0_r in Hx. symmetry. apply nsrec_all_0. exact Hx.
     - cbn [nsP]. rewrite div2_pow2.
       rewrite Hp by (apply Nat.pow_le_mono_r; lia).
       replace (2 * 2 ^ s) with (2 ^ S s) by (rewrite Nat.pow_succ_r'; reflexivity).
@@ -215,7 +219,8 @@ Section NsStruct.
         destruct (Nat.eq_dec j (rv I)) as [->|Hne].
         + rewrite aget_aset_same. f_equal. unfold pw_entry.
           replace (rv I <? half) with true by (symmetry; apply Nat.ltb_lt; exact HrI).
-          unfold rv at 1. rewrite bitrev_nat_invol by (fold half; lia).
+          assert (Hrr : rv (rv I) = I) by (unfold rv; apply bitrev_nat_invol; fold half; lia).
+          rewrite Hrr.
           replace (I <? S I) with true by (symmetry; apply Nat.ltb_lt; lia). reflexivity.
         + rewrite aget_aset_other by lia. rewrite (Hinv j Hj). f_equal. unfold pw_entry.
           destruct (j <? half) eqn:E1; [|reflexivity]. cbn [andb]. apply Nat.ltb_lt in E1.
